@@ -27,3 +27,7 @@ package kv
 //@   loop #1
 //@     invariant [shared-map-untouched] kv != nil && kv.m == old(kv.m) && (forall k string :: (in(k, kv.m) <==> old(in(k, kv.m))) && (old(in(k, kv.m)) ==> kv.m[k] == old(kv.m[k])))
 //@     invariant [copy-is-private] fresh(kvCopy) && !in(key, kvCopy)
+//@ func (*KV).Get
+//@   inline
+//@ func (KV).Empty
+//@   inline
